@@ -22,8 +22,10 @@ LEVEL_TEXT = (
     "itself as the offspring on any path (the next in-place growth or cached phenotype would then be shared); "
     "(R4) no unguarded subscript read on an attribute that holds an auto-vivifying defaultdict (guards include "
     "guard clauses and short-circuit operands; no subscript read at all - lookups through .get / membership - is "
-    "the safe case). Decides these for all parents and populations; aliasing through dynamic attribute names is "
-    "not decided."
+    "the safe case). (R5) the components recorded in a Fitness are a list of the library's own, not the object "
+    "the user's fitness function returned (Problem model shared with C13: a function that reuses its result list "
+    "would rewrite the fitness cached on other input individuals). Decides these for all parents and populations;"
+    " aliasing through dynamic attribute names is not decided."
 )
 
 ALLOW = {
